@@ -29,14 +29,15 @@ ShapesIO == { Shape(tx, ins, outs, <<>>, 21) : tx \in Range(TxKinds), ins \in So
 \* slice "rcpol": every transaction kind with every receipt multiset and policy set
 ShapesRcPol == { Shape(tx, <<"CoinSigned">>, <<"Change">>, rcs, pol) : tx \in Range(TxKinds), rcs \in Sorted2(RcKinds), pol \in PolSets }
               \cup { Shape("Mint", <<>>, <<>>, rcs, 0) : rcs \in Sorted2(RcKinds) }
-ShapesFull == { Shape(tx, ins, outs, rcs, pol) : tx \in Range(TxKinds), ins \in Sorted2(InKinds),
-                outs \in Sorted2(OutKinds), rcs \in UpTo2(RcKinds) \ { s \in UpTo2(RcKinds) : Len(s) = 2 }, pol \in PolSets }
+\* thorough: inputs x outputs x at most one receipt, for the two richest transaction kinds
+ShapesFull == { Shape(tx, ins, outs, rcs, 63) : tx \in {"Script", "Create"}, ins \in Sorted2(InKinds),
+                outs \in Sorted2(OutKinds), rcs \in { s \in UpTo2(RcKinds) : Len(s) <= 1 } }
 
 MCShapes == CASE ShapeMode = "small" -> ShapesSmall
               [] ShapeMode = "io"    -> ShapesIO
               [] ShapeMode = "rcpol" -> ShapesRcPol
               [] ShapeMode = "full"  -> ShapesFull
 
-View == vars
+View == <<born, top, stored, latest>>
 EmitEdge == PrintT(<<"EDGE", ToJson([src |-> StateRec, act |-> act', dst |-> StateRec'])>>)
 =============================================================================
